@@ -1,0 +1,9 @@
+//go:build verif
+
+package headers
+
+// Contracts checked by /verif/govc (see /verif/DESIGN.md). Comment-only file.
+
+// Frame only: parsing writes the receiver's fields and fresh memory.
+//@ func (h *Authorization) Unmarshal
+//@   modifies fields(h), fresh
